@@ -26,13 +26,17 @@ META = {
                   'for every request of every configuration reachable within the bound.  Every such configuration is '
                   'then built as a real app on both stacks and every row of its TLC-computed decision table is compared '
                   'with what the app does; random larger apps are recorded and judged by TLC against the same module.',
-    'level_note': 'Bounded: exhaustive for <= 2 (quick) / <= 3 (thorough) assembly calls over 6 templates x 4 resource '
-                  'kinds x suffix, 4 sink prefixes, 2 static prefixes x fallback, 7 methods x 35 paths, plus every '
-                  'subset of a 6-method universe on one route; random apps up to 12 routes / 6 sinks / 3 static routes. '
-                  'Route templates have literal and single-field segments only (converters / multi-field segments '
-                  'belong to C01); sink prefixes are literal text, (?P<n>\\d+) and (?P<n>[^/]+) groups.  Trusted: TLC, '
-                  'engine/drivers.py, CPython re/os.  What a picked static route does with the remainder of the path is '
-                  'modelled only as far as needed to recognise it (C16 owns it).',
+    'level_note': 'Bounded.  Model check (every clause x 7 methods x 35 paths per configuration): quick = all configurations '
+                  'reachable with <= 2 assembly calls over 6 templates x 2 resource kinds x suffix, 4 sink prefixes, 2 static '
+                  'prefixes x fallback, both flag values (1 686) + one route with every subset of a 6-method universe x 2 '
+                  'suffixed sets x 9 methods (514); thorough = <= 2 calls with 4 resource kinds (5 238) and <= 3 calls with 2 '
+                  '(39 702).  Replay: the one-call tables in full, two-call tables over reduced pools (quick) / in full '
+                  '(thorough), TLC-simulated 4-6 call histories with sampled rows; random apps up to 12 routes / 6 sinks / 3 '
+                  'static routes with assembly interleaved with requests.  Route templates have literal and single-field '
+                  'segments only (converters / multi-field segments belong to C01); sink prefixes are literal text, '
+                  '(?P<n>\\d+) and (?P<n>[^/]+) groups.  What a picked static route does with the rest of the path is '
+                  'modelled only as far as needed to recognise it (C16 owns it); OPTIONS answered by a static route is not '
+                  'distinguishable from other 200 + Allow: GET answers.  Trusted: TLC, engine/drivers.py, CPython re/os.',
 }
 
 from engine import drivers
@@ -421,7 +425,7 @@ def leg_a(ctx, dirs):
         ncfg += len(cfgs2)
         ctx.progress('leg A (exhaustive tables, %s): %d configurations, %d requests replayed in total'
                      % (cfg, len(cfgs2), replayed))
-    rs = ctx.tlc('MC_Dispatch', ctx.pick('MC_DispatchSim.cfg', 'MC_DispatchSim6.cfg'), simulate={'num': ctx.pick(3, 15)},
+    rs = ctx.tlc('MC_Dispatch', ctx.pick('MC_DispatchSim.cfg', 'MC_DispatchSim6.cfg'), simulate={'num': ctx.pick(3, 50)},
                  depth=8, seed=ctx.seed + 1, workers=4, timeout=1200, count=False)
     cfgs3 = {digest([b['h'], b['sbs']]): b for b in rs.json}
     del rs
